@@ -150,15 +150,16 @@ class StatelessClassRule(BaseLintRule):  # thailint: ignore[srp,dry]
         Returns:
             StatelessClassConfig instance
         """
-        if not hasattr(context, "config") or context.config is None:
-            return StatelessClassConfig()
-
-        config_dict = context.config
+        # The orchestrator passes the loaded configuration as context.metadata
+        # (section names normalised to underscores); context.config is the test-style carrier.
+        config_dict = getattr(context, "config", None) or getattr(context, "metadata", None)
         if not isinstance(config_dict, dict):
             return StatelessClassConfig()
 
         # Check for stateless-class specific config
-        linter_config = config_dict.get("stateless-class", config_dict)
+        linter_config = config_dict.get(
+            "stateless_class", config_dict.get("stateless-class", config_dict)
+        )
         return StatelessClassConfig.from_dict(linter_config)
 
     def _is_file_ignored(self, context: BaseLintContext, config: StatelessClassConfig) -> bool:
